@@ -170,6 +170,10 @@ class HSDPDistributor(DistributorInterface):
         # Instantiates this by using DeviceMesh.
         ranks_in_all_replicated_groups = self._hsdp_device_mesh.mesh.T
         for ranks_in_replicated_group in ranks_in_all_replicated_groups:
+            # NOTE: Process groups number their ranks in ascending global-rank order, and _allocate_zeros_distributed_tensor
+            # rebuilds these sub-meshes from the process group's (sorted) rank list; sort here as well so that both agree
+            # for device meshes whose ranks are not in ascending order.
+            ranks_in_replicated_group = ranks_in_replicated_group.sort().values
             device_mesh = get_device_mesh(
                 device_type=self._hsdp_device_mesh.device_type,
                 mesh=tuple(
